@@ -2,6 +2,8 @@
 
 from __future__ import annotations
 
+import itertools
+
 import numpy as np
 
 from mc.domains import FRAMES, frame_apply, frame_vec
@@ -363,6 +365,15 @@ def catalogue():
 
     add("Shell.chop(faces)", "connected", "in", lambda: shell_chop(False))
     add("Shell.chop(faces)", "disconnected", "out", lambda: shell_chop(True))
+
+    # three faces, one of them touching no other: in whatever order they are listed
+    def shell_chop3(order, lonely):
+        f = [cb.Face(quad), cb.Face(np.array(quad) + [1, 0, 0]), cb.Face(np.array(quad) + ([5, 5, 0] if lonely else [2, 0, 0]))]
+        cb.Shell([f[i] for i in order], 0.2).chop(count=2)
+
+    for order in itertools.permutations(range(3)):
+        add("Shell.chop(three faces)", f"all connected, order {order}", "in", lambda order=order: shell_chop3(order, False))
+        add("Shell.chop(three faces)", f"one face apart, order {order}", "out", lambda order=order: shell_chop3(order, True))
     # --- arcs
     add("Angle(angle)", 0.0, "may", lambda: _angle_edge(0.0))
     add("Angle(angle)", 1.0, "in", lambda: _angle_edge(1.0))
